@@ -1,0 +1,44 @@
+//go:build verif
+
+package cmd
+
+import (
+	"context"
+
+	"github.com/AdguardTeam/AdGuardDNS/internal/access"
+	"github.com/AdguardTeam/golibs/logutil/slogutil"
+	"gopkg.in/yaml.v2"
+)
+
+// Verification hook for property C10: the production wiring of the global
+// access settings.  [VerifC10Global] parses a configuration file the way
+// [parseConfig] does, runs the start-up validation of its access section and
+// the unchanged [builder.initAccess], and returns the access manager that
+// [builder.initDNS] hands to the DNS handlers.
+
+// VerifC10Global returns the global access manager built from the
+// configuration file data.
+func VerifC10Global(confYAML []byte) (g *access.Global, err error) {
+	c := &configuration{}
+	err = yaml.Unmarshal(confYAML, c)
+	if err != nil {
+		return nil, err
+	}
+
+	err = c.Access.validate()
+	if err != nil {
+		return nil, err
+	}
+
+	b := &builder{
+		conf:   c,
+		logger: slogutil.NewDiscardLogger(),
+	}
+
+	err = b.initAccess(context.Background())
+	if err != nil {
+		return nil, err
+	}
+
+	return b.access, nil
+}
